@@ -307,6 +307,14 @@ func (s *sim) setMetrics(health string) {
 			default:
 				continue
 			}
+			if health[j] != 'v' {
+				// the unusable metric is the latest of two: an older one,
+				// valid and still unexpired, sits below it in the window
+				// (what counts is the most recent one)
+				old := &api.Metric{Name: informerMetric, Peer: s.ids[j], Value: fmt.Sprint(5000 + 10*j), Valid: true}
+				old.SetTTL(30 * time.Second)
+				st.Add(old)
+			}
 			st.Add(m)
 		}
 		s.mons[i].Store = st
